@@ -827,7 +827,9 @@ int main(int argc, char** argv) {
     mf = [](World& w, VSink* s) { return std::vector<Monitor*>{new CompletionMonitor(s, &w)}; };
   } else if (prop == "C20") {
     scs = scenariosC20(th, A);
-    mf = [](World& w, VSink* s) { return std::vector<Monitor*>{new ProbeMonitor(s, ref::unhex(C20_PROBE))}; };
+    // + the request bookkeeping oracle: a request object that is in flight but referenced neither by a queue nor as
+    // current request is a leaked object (and a waiter that blocks forever); completed twice / referenced after completion
+    mf = [](World& w, VSink* s) { return std::vector<Monitor*>{new ProbeMonitor(s, ref::unhex(C20_PROBE)), new CompletionMonitor(s, &w, "C20/request/")}; };
   } else if (prop == "C15") {
     scs = scenariosC15(th, A);
     mf = [](World& w, VSink* s) { return std::vector<Monitor*>{new AnswerMonitor(s, w.sc)}; };
